@@ -115,7 +115,7 @@ Theorem frag_total F D : forall v, fragb F D v = true -> forall st, exists j st'
 Proof.
   apply (PyValInd.pval_ind' (fun v => fragb F D v = true -> forall st, exists j st', get_state D v st = Ok (j, st'))).
   - intros v Hl Hf st. destruct v; try discriminate Hl; cbn [fragb] in Hf; try discriminate Hf; cbn [get_state]; eauto;
-      try (destruct (fresh st) as [tid0 stq]; eauto).
+      try (destruct (fresh st) as [tid0 stq]; eauto); try (destruct (fresh_uuid st) as [u0 stu]; eauto).
     apply andb_prop in Hf. destruct Hf as [Hf H3]. apply andb_prop in Hf. destruct Hf as [H1 H2].
     assert (Hsb : forall x st0, bound_supported x = true -> exists jx, sbound_json x st0 = Ok (jx, st0)).
     { intros x st0 Hx. destruct x as [[| | | |]|]; try discriminate Hx; eexists; reflexivity. }
